@@ -1,4 +1,5 @@
 import GoLevel.Gen.Consts
+import GoLevel.Model.CompErr
 /-!
 # Blocking resources of `leveldb.DB` and the control flow of every public call over them (property C09)
 
@@ -12,9 +13,10 @@ Every storage action inside a call or a compaction has an `ok` and a `fail` outc
 `fail` outcome are the *fault* steps (`Step cfg true`), all other steps are `Step cfg false`.
 
 Four return paths could leave a resource held; the model is parametrised by `Cfg` with one flag per path
-(`true` = the path releases).  `Cfg.asIs` (all `false`) is the code as it was when the model was written,
-`Cfg.repaired` (all `true`) has every leak closed, `codeCfg` takes the four flags from the regenerated
-`Gen/Consts.lean`, i.e. from the Go source as it is now (the first three were fixed on 2026-09-25):
+(`true` = the path releases), the `select` / `switch` cases of `compactionError` (`Cfg.m`), and whether
+`tCompaction` consults `compReadOnly` (`Cfg.roParks`).  `Cfg.asIs` (the four flags `false`) is the code as it was
+when the model was first written, `Cfg.repaired` has every leak closed and the machine as coded, `codeCfg` takes
+everything from the regenerated `Gen/Consts.lean`, i.e. from the Go source as it is now:
 
 * `commitUnlocksOnError` — `Transaction.Commit` returns with `compCommitLk` held after three failed
   `s.commit` attempts (`db_transaction.go`, `if cerr != nil { return cerr }` after the retry loop);
@@ -23,13 +25,28 @@ Four return paths could leave a resource held; the model is parametrised by `Cfg
 * `largeBatchDiscardsOnCommitError` — `DB.Write`'s large-batch path returns a failed `tr.Commit()` without
   `tr.Discard()`: the transaction (and the token it owns) is orphaned;
 * `setReadOnlyReleasesOnClose` — `SetReadOnly` takes the token, sets `compWriteLocking`, and if its second
-  `select` then takes the `closeC` arm it returns `ErrClosed` with the token still in `writeLockC`;
-  `compactionError` releases it on `closeC` only from its `hasperr` loop.  (Found while modelling; open.)
+  `select` then takes the `closeC` arm it returned `ErrClosed` with the token still in `writeLockC`;
+  `compactionError` releases it on `closeC` only from its `hasperr` loop.  (Found while modelling, D23;
+  repaired: the arm now does `select { case <-db.writeLockC: default: }`.)
+
+The error goroutine is `Model/CompErr.lean`: `Cfg.m` says which `select` / `switch` cases `compactionError` has
+(`CompErr.codeM`: read off the Go AST), and every step that talks to it — `compactionTransact`'s
+`select { case db.compErrSetC <- err: … case perr := <-db.compPerErrC: … case <-db.closeC: … }`, the `compErrC` /
+`compPerErrC` arms of the calls, `SetReadOnly`'s two `select`s, the `writeLockC` send / take-back of the `hasperr`
+loop — is enabled exactly when the machine offers the matching operation in its current label.  Error kinds
+(`CompErr.EK`): a compaction's storage action ends with `nil`, a transient error, or a corruption
+(`errors.IsCorrupted`, fault steps `bgWorkCorrupt` / `bgCommitCorrupt`, possible while `St.corr`); `SetReadOnly`
+posts `ErrReadOnly`.  `St.cwl` is `db.compWriteLocking` (set by `SetReadOnly` when it takes the token and by the
+`hasperr` loop when it does, read by the `closeC` case of `hasperr`), `St.ro` is `db.compReadOnly` (consulted by
+`tCompaction` if `Cfg.roParks`: it answers a command with `ErrReadOnly` and parks until `closeC`).  Both
+take-backs are coded blind — `SetReadOnly`'s `select { case <-db.writeLockC: default: }` and the machine's
+`<-db.writeLockC` take whatever token is in the channel — and are modelled so.
 
 Abstractions: the write-merge protocol is C10 (here a `Put` is a non-merging writer); `tcompPauseC` is not
 modelled; a compaction goroutine works only on waited commands (`compTriggerWait` / `compTriggerRange`);
 when a compaction goroutine exits it does not ack its waiter with `ErrClosed` — the waiter's own `closeC`
-arm (enabled in the same states, same result) stands for it; `db.ok()` prechecks are subsumed by the
+arm, or its `compErrC` arm when the goroutine ended on a persistent error (enabled in the same states) stands
+for it; the back-off timer of `compactionTransact` is "retry"; `db.ok()` prechecks are subsumed by the
 `closeC` arms.
 -/
 namespace GoLevel.Locks
@@ -39,16 +56,27 @@ structure Cfg where
   openTxReleasesOnError : Bool
   largeBatchDiscardsOnCommitError : Bool
   setReadOnlyReleasesOnClose : Bool
+  /-- the `select` and `switch` cases of `compactionError` (`Model/CompErr.lean`) -/
+  m : CompErr.MCfg
+  /-- `tCompaction` consults `compReadOnly` at the top of its loop and before executing a command -/
+  roParks : Bool
+  /-- `SetReadOnly` and `compactionTransact` talk to `compactionError` as modelled (a shape fact: no step
+  depends on it, `codeCfg = Cfg.repaired` demands it) -/
+  callers : Bool
 deriving DecidableEq, Repr
 
-def Cfg.asIs : Cfg := ⟨false, false, false, false⟩
-def Cfg.repaired : Cfg := ⟨true, true, true, true⟩
+def Cfg.asIs : Cfg := ⟨false, false, false, false, .asCoded, false, true⟩
+/-- every release in place, `compactionError` as coded -/
+def Cfg.repaired : Cfg := ⟨true, true, true, true, .asCoded, true, true⟩
 
-/-- the configuration of the Go source as it is now: the four facts are read off the Go AST on every run
+/-- the configuration of the Go source as it is now: every fact is read off the Go AST on every run
 (`Gen/Consts.lean` is regenerated) -/
 def codeCfg : Cfg :=
   ⟨Gen.lkCommitUnlocksOnError, Gen.lkOpenTxReleasesOnError, Gen.lkLargeBatchDiscardsOnCommitError,
-   Gen.lkSetReadOnlyReleasesOnClose⟩
+   Gen.lkSetReadOnlyReleasesOnClose, CompErr.codeM, Gen.roCompactionParks, Gen.ceCallersAsModelled⟩
+
+export CompErr (Eh EK)
+open CompErr (recvs next offErr offPer offLock closes onClose)
 
 /-- the three leaks of `Commit`, `OpenTransaction` and the large-batch `Write` are closed -/
 def Fixed3 (cfg : Cfg) : Prop :=
@@ -71,6 +99,8 @@ deriving DecidableEq, Repr
 /-- program counters; `lg = true`: the call is part of `DB.Write`'s large-batch path -/
 inductive Pc
   | idle | ret (ok : Bool)
+  /-- the call returned the error it received from `compPerErrC` at its first `select` -/
+  | retE (e : EK)
   -- Put / Delete / small Write
   | putSel | putFlush | putJournal | putUnlock (ok : Bool)
   -- compTriggerWait: send the command, wait for the ack
@@ -96,15 +126,15 @@ deriving DecidableEq, Repr
 /-- phases of a compaction (`compactionTransact` around the table writes, then `compactionCommit`) -/
 inductive BPh
   | work | setErr (ok : Bool) (commit : Bool) | backoff (commit : Bool) | lockClk | commit | ackW
+  /-- at the `select` of `compactionTransact` with an error for which `errors.IsCorrupted` holds -/
+  | setErrC (commit : Bool)
 deriving DecidableEq, Repr
 
 /-- a compaction goroutine -/
 inductive Bg
   | idle | run (w : Option Nat) (ph : BPh) | exited
-deriving DecidableEq, Repr
-
-/-- `compactionError` -/
-inductive Eh | noerr | haserr | hasperr | exited
+  /-- `tCompaction` saw `compReadOnly` at the top of its loop: `<-db.closeC` -/
+  | parked
 deriving DecidableEq, Repr
 
 structure St where
@@ -117,8 +147,14 @@ structure St where
   trOpen : Bool := false
   /-- the open transaction's handle is in the user's hands (not internal to `DB.Write`) -/
   trUser : Bool := false
-  /-- ghost: the token is held on behalf of `compWriteLocking` -/
+  /-- ghost: a token put into `writeLockC` by `SetReadOnly` or by the `hasperr` loop has not been taken back -/
   ehTok : Bool := false
+  /-- `db.compWriteLocking` -/
+  cwl : Bool := false
+  /-- `db.compReadOnly` -/
+  ro : Bool := false
+  /-- `compactionError`'s variable `err` (the last value received from `compErrSetC`) -/
+  ehErr : EK := .nil
   /-- ghost: the token is held by `Close` -/
   closeTok : Bool := false
   mc : Bg := .idle
@@ -126,6 +162,8 @@ structure St where
   eh : Eh := .noerr
   /-- the client program may call `SetReadOnly` (never changed by a step) -/
   sr : Bool := true
+  /-- a compaction's storage action may fail with a corruption error (never changed by a step) -/
+  corr : Bool := true
 deriving DecidableEq, Repr
 
 def St.bg (s : St) (b : Bool) : Bg := if b then s.tc else s.mc
@@ -183,7 +221,7 @@ def trlkW : Pc → Nat
   | _ => 0
 
 def bphClk : BPh → Nat
-  | .commit | .setErr _ true | .backoff true => 1
+  | .commit | .setErr _ true | .backoff true | .setErrC true => 1
   | _ => 0
 
 def bgClk : Bg → Nat
@@ -202,7 +240,7 @@ def ackWt : Site → Nat
   | .otxWaitT => 28 | .otxRot2 => 38 | .otxWaitM => 38 | .otxRot1 => 48
 
 def wt : Pc → Nat
-  | .idle => 60 | .ret _ => 0
+  | .idle => 60 | .ret _ => 0 | .retE _ => 0
   | .putSel => 13 | .putFlush => 12 | .putJournal => 2 | .putUnlock _ => 1
   | .cwSend _ s _ => ackWt s + 8 | .cwAck _ s _ => ackWt s
   | .otxSel _ => 58 | .otxBranch _ => 57 | .otxNewMem _ => 47 | .otxWaitComp _ => 37
@@ -218,13 +256,13 @@ def wt : Pc → Nat
 
 def bphWt : BPh → Nat
   | .setErr false _ => 9 | .backoff _ => 8 | .work => 7 | .setErr true false => 6 | .lockClk => 5
-  | .commit => 4 | .setErr true true => 3 | .ackW => 2
+  | .commit => 4 | .setErr true true => 3 | .ackW => 2 | .setErrC _ => 3
 
 def bgWt : Bg → Nat
-  | .idle => 1 | .run _ ph => bphWt ph | .exited => 0
+  | .idle => 1 | .run _ ph => bphWt ph | .exited => 0 | .parked => 1
 
 def ehWt : Eh → Nat
-  | .exited => 0 | _ => 3
+  | .exited => 0 | .closing => 2 | _ => 3
 
 /-- the waiter `i` has left: forget it -/
 def clearW (x : Bg) (i : Nat) : Bg :=
@@ -244,6 +282,11 @@ def ackWs (ws : List Pc) (w : Option Nat) (b : Bool) : List Pc :=
 /-- after `setErr`: on success go on (a successful commit unlocks `compCommitLk` and acks), else back off -/
 def afterSetErr (ok commit : Bool) : BPh :=
   if ok then (if commit then .ackW else .lockClk) else .backoff commit
+
+/-- where `tCompaction` is after it finished a command: at its `select`, or — having seen `compReadOnly` at
+the top of the loop — parked (`mCompaction` does not look at the flag) -/
+def afterCmd (cfg : Cfg) (s : St) (b : Bool) : Bg :=
+  if b && cfg.roParks && s.ro then .parked else .idle
 
 /-- `setDone`: the transaction ends, its token goes back -/
 def St.setDone (s : St) : St :=
@@ -273,10 +316,11 @@ inductive Step (cfg : Cfg) : Bool → St → St → Prop
   -- ### `select { case db.writeLockC <- …; case <-db.compPerErrC; case <-db.closeC }`
   | selTok (s : St) (i : Nat) (p q : Pc) (hi : s.ws[i]? = some p) (hq : selNext p = some q)
       (ht : s.tok = false) :
-      Step cfg false s { s with ws := s.ws.set i q, tok := true, ehTok := if p = .srSel then true else s.ehTok }
+      Step cfg false s { s with ws := s.ws.set i q, tok := true, ehTok := if p = .srSel then true else s.ehTok,
+                                cwl := if p = .srSel then true else s.cwl }
   | selPerErr (s : St) (i : Nat) (p q : Pc) (hi : s.ws[i]? = some p) (hq : selNext p = some q)
-      (he : s.eh = .hasperr) :
-      Step cfg false s { s with ws := s.ws.set i (.ret false) }
+      (he : offPer cfg.m s.eh = true) :
+      Step cfg false s { s with ws := s.ws.set i (.retE s.ehErr) }
   | selClosed (s : St) (i : Nat) (p q : Pc) (hi : s.ws[i]? = some p) (hq : selNext p = some q)
       (hc : s.closed = true) :
       Step cfg false s { s with ws := s.ws.set i (.ret false) }
@@ -293,16 +337,23 @@ inductive Step (cfg : Cfg) : Bool → St → St → Prop
       Step cfg false s { s with ws := s.ws.set i (.ret r), tok := false }
   -- ### `compTriggerWait` / `compTriggerRange`
   | cwSendGo (s : St) (i : Nat) (b : Bool) (site : Site) (lg : Bool)
-      (hi : s.ws[i]? = some (.cwSend b site lg)) (hb : s.bg b = .idle) :
+      (hi : s.ws[i]? = some (.cwSend b site lg)) (hb : s.bg b = .idle)
+      (hro : (b && cfg.roParks && s.ro) = false) :
       Step cfg false s ({ s with ws := s.ws.set i (.cwAck b site lg) }.setBg b (.run (some i) .work))
+  /-- `tCompaction` receives the command, sees `compReadOnly`: `x.ack(ErrReadOnly)`, `continue`, and at the
+  top of the loop `<-db.closeC` -/
+  | cwSendRO (s : St) (i : Nat) (site : Site) (lg : Bool)
+      (hi : s.ws[i]? = some (.cwSend true site lg)) (hb : s.tc = .idle)
+      (hp : cfg.roParks = true) (hro : s.ro = true) :
+      Step cfg false s { s with ws := s.ws.set i (onErr site lg), tc := .parked }
   | cwSendErr (s : St) (i : Nat) (b : Bool) (site : Site) (lg : Bool)
       (hi : s.ws[i]? = some (.cwSend b site lg))
-      (he : s.eh = .haserr ∨ s.eh = .hasperr ∨ s.closed = true) :
+      (he : offErr cfg.m s.eh = true ∨ s.closed = true) :
       Step cfg false s { s with ws := s.ws.set i (onErr site lg) }
   /-- the waiter leaves (its ack channel is closed: the later ack is a no-op) -/
   | cwAckErr (s : St) (i : Nat) (b : Bool) (site : Site) (lg : Bool)
       (hi : s.ws[i]? = some (.cwAck b site lg))
-      (he : s.eh = .haserr ∨ s.eh = .hasperr ∨ s.closed = true) :
+      (he : offErr cfg.m s.eh = true ∨ s.closed = true) :
       Step cfg false s ({ s with ws := s.ws.set i (onErr site lg) }.setBg b (clearW (s.bg b) i))
   -- ### OpenTransaction
   | otxRotate (s : St) (i : Nat) (lg : Bool) (hi : s.ws[i]? = some (.otxBranch lg)) :
@@ -389,13 +440,16 @@ inductive Step (cfg : Cfg) : Bool → St → St → Prop
   | crRelFail (s : St) (i : Nat) (hi : s.ws[i]? = some .crRelFail) :
       Step cfg false s { s with ws := s.ws.set i (.ret false), tok := false }
   -- ### SetReadOnly (second `select`)
-  | srSend (s : St) (i : Nat) (hi : s.ws[i]? = some .srSet) (he : s.eh = .noerr ∨ s.eh = .haserr) :
-      Step cfg false s { s with ws := s.ws.set i (.ret true), eh := .hasperr }
-  | srPerErr (s : St) (i : Nat) (hi : s.ws[i]? = some .srSet) (he : s.eh = .hasperr) :
-      Step cfg false s { s with ws := s.ws.set i (.ret false) }
-  /-- `case <-db.closeC: return ErrClosed` — THE LEAK: the token stays in `writeLockC` -/
+  /-- `case db.compErrSetC <- ErrReadOnly: atomic.StoreUint32(&db.compReadOnly, 1)`; `return nil` -/
+  | srSend (s : St) (i : Nat) (hi : s.ws[i]? = some .srSet) (he : recvs cfg.m s.eh = true) :
+      Step cfg false s { s with ws := s.ws.set i (.ret true), eh := next cfg.m s.eh .readonly,
+                                ehErr := .readonly, ro := true }
+  | srPerErr (s : St) (i : Nat) (hi : s.ws[i]? = some .srSet) (he : offPer cfg.m s.eh = true) :
+      Step cfg false s { s with ws := s.ws.set i (.retE s.ehErr) }
+  /-- `case <-db.closeC: select { case <-db.writeLockC: default: }; return ErrClosed` — whatever token is in
+  the channel is taken out (flag false: the code before the repair of D23, the token stays) -/
   | srClosed (s : St) (i : Nat) (hi : s.ws[i]? = some .srSet) (hc : s.closed = true) :
-      Step cfg false s (if cfg.setReadOnlyReleasesOnClose && s.ehTok
+      Step cfg false s (if cfg.setReadOnlyReleasesOnClose
                         then { s with ws := s.ws.set i (.ret false), tok := false, ehTok := false }
                         else { s with ws := s.ws.set i (.ret false) })
   -- ### Close
@@ -411,16 +465,23 @@ inductive Step (cfg : Cfg) : Bool → St → St → Prop
   /-- `db.closeW.Wait()` -/
   | clWait (s : St) (i : Nat) (hi : s.ws[i]? = some .clWait) (hm : s.mc = .exited) (ht : s.tc = .exited) :
       Step cfg false s { s with ws := s.ws.set i (.ret true) }
-  -- ### `compactionError`
-  | ehAcquire (s : St) (he : s.eh = .hasperr) (ht : s.tok = false) (hn : s.ehTok = false) :
-      Step cfg false s { s with tok := true, ehTok := true }
-  | ehExit (s : St) (he : s.eh ≠ .exited) (hc : s.closed = true) :
-      Step cfg false s (if s.eh = .hasperr ∧ s.ehTok = true
-                        then { s with eh := .exited, tok := false, ehTok := false }
-                        else { s with eh := .exited })
+  -- ### `compactionError` (its receives from `compErrSetC` and its sends on `compErrC` / `compPerErrC` are
+  -- part of the steps of their partners)
+  /-- `case db.writeLockC <- struct{}{}: db.compWriteLocking = true` -/
+  | ehAcquire (s : St) (he : offLock cfg.m s.eh = true) (ht : s.tok = false) :
+      Step cfg false s { s with tok := true, ehTok := true, cwl := true }
+  /-- `case <-db.closeC:` … `return`, in `hasperr` after `if db.compWriteLocking { <-db.writeLockC }` -/
+  | ehClose (s : St) (he : closes cfg.m s.eh = true) (hc : s.closed = true) :
+      Step cfg false s { s with eh := onClose cfg.m s.eh s.cwl }
+  /-- `<-db.writeLockC` in the `closeC` case of `hasperr`: a blocking receive, whatever token is there -/
+  | ehTake (s : St) (he : s.eh = .closing) (ht : s.tok = true) :
+      Step cfg false s { s with eh := .exited, tok := false, ehTok := false }
   -- ### the compaction goroutines
   | bgExitIdle (s : St) (b : Bool) (hb : s.bg b = .idle) (hc : s.closed = true) :
       Step cfg false s (s.setBg b .exited)
+  /-- the parked `tCompaction`: `<-db.closeC; return` -/
+  | bgExitParked (s : St) (hb : s.tc = .parked) (hc : s.closed = true) :
+      Step cfg false s { s with tc := .exited }
   | bgWorkOk (s : St) (b : Bool) (w : Option Nat) (hb : s.bg b = .run w .work) :
       Step cfg false s (s.setBg b (.run w (.setErr true false)))
   | bgWorkFail (s : St) (b : Bool) (w : Option Nat) (hb : s.bg b = .run w .work) :
@@ -429,14 +490,26 @@ inductive Step (cfg : Cfg) : Bool → St → St → Prop
       Step cfg false s (s.setBg b (.run w (.setErr true true)))
   | bgCommitFail (s : St) (b : Bool) (w : Option Nat) (hb : s.bg b = .run w .commit) :
       Step cfg true s (s.setBg b (.run w (.setErr false true)))
-  /-- `case db.compErrSetC <- err` (received in the `noerr` / `haserr` loops) -/
+  | bgWorkCorrupt (s : St) (b : Bool) (w : Option Nat) (hb : s.bg b = .run w .work) (hk : s.corr = true) :
+      Step cfg true s (s.setBg b (.run w (.setErrC false)))
+  | bgCommitCorrupt (s : St) (b : Bool) (w : Option Nat) (hb : s.bg b = .run w .commit) (hk : s.corr = true) :
+      Step cfg true s (s.setBg b (.run w (.setErrC true)))
+  /-- `case db.compErrSetC <- err` (received where the machine has a `compErrSetC` case); then `return` on
+  `nil`, else the back-off -/
   | bgSetErr (s : St) (b : Bool) (w : Option Nat) (ok c : Bool) (hb : s.bg b = .run w (.setErr ok c))
-      (he : s.eh = .noerr ∨ s.eh = .haserr) :
-      Step cfg false s ({ s with eh := if ok then .noerr else .haserr,
+      (he : recvs cfg.m s.eh = true) :
+      Step cfg false s ({ s with eh := next cfg.m s.eh (if ok then .nil else .transient),
+                                 ehErr := if ok then .nil else .transient,
                                  clk := if ok && c then false else s.clk }.setBg b (.run w (afterSetErr ok c)))
+  /-- `case db.compErrSetC <- err` with a corruption; then `if errors.IsCorrupted(err) { …
+  db.compactionExitTransact() }`: the deferred `compCommitLk.Unlock()` runs, the goroutine ends -/
+  | bgSetErrCorrupt (s : St) (b : Bool) (w : Option Nat) (c : Bool) (hb : s.bg b = .run w (.setErrC c))
+      (he : recvs cfg.m s.eh = true) :
+      Step cfg false s ({ s with eh := next cfg.m s.eh .corrupt, ehErr := .corrupt,
+                                 clk := if c then false else s.clk }.setBg b .exited)
   /-- `case perr := <-db.compPerErrC` with `err == nil` -/
   | bgSetErrPer (s : St) (b : Bool) (w : Option Nat) (c : Bool) (hb : s.bg b = .run w (.setErr true c))
-      (he : s.eh = .hasperr) :
+      (he : offPer cfg.m s.eh = true) :
       Step cfg false s ({ s with clk := if c then false else s.clk }.setBg b (.run w (afterSetErr true c)))
   | bgBackoff (s : St) (b : Bool) (w : Option Nat) (c : Bool) (hb : s.bg b = .run w (.backoff c)) :
       Step cfg false s (s.setBg b (.run w (if c then .commit else .work)))
@@ -445,12 +518,12 @@ inductive Step (cfg : Cfg) : Bool → St → St → Prop
       Step cfg false s ({ s with clk := true }.setBg b (.run w .commit))
   /-- `x.ack(nil)`: the waiter, if it still waits, goes on -/
   | bgAck (s : St) (b : Bool) (w : Option Nat) (hb : s.bg b = .run w .ackW) :
-      Step cfg false s ({ s with ws := ackWs s.ws w b }.setBg b .idle)
+      Step cfg false s ({ s with ws := ackWs s.ws w b }.setBg b (afterCmd cfg s b))
   /-- `compactionExitTransact` (closed at the top of the retry loop, `closeC` in a `select`, a persistent
   error with `err != nil`): the deferred `compCommitLk.Unlock()` runs, the goroutine ends -/
   | bgExit (s : St) (b : Bool) (w : Option Nat) (ph : BPh) (hb : s.bg b = .run w ph)
       (hx : (s.closed = true ∧ ph ≠ .lockClk ∧ ph ≠ .ackW) ∨
-            (s.eh = .hasperr ∧ ∃ c, ph = .setErr false c)) :
+            (offPer cfg.m s.eh = true ∧ ∃ c, ph = .setErr false c ∨ ph = .setErrC c)) :
       Step cfg false s ({ s with clk := if bphClk ph = 1 then false else s.clk }.setBg b .exited)
 
 /-- runs (storage failures allowed) -/
@@ -484,12 +557,18 @@ def srAllW : Pc → Nat | .srSel | .srSet => 1 | _ => 0
 /-- no thread is inside `SetReadOnly`, and none will be -/
 def NoSR (s : St) : Prop := s.sr = false ∧ tot srAllW s.ws = 0
 
+/-- initial states in which no storage action reports a corruption -/
+def initNC (n : Nat) : St := { ws := List.replicate n .idle, corr := false }
+
+/-- reachable in a run without corruption errors -/
+def ReachableNC (cfg : Cfg) (s : St) : Prop := ∃ n, Steps cfg (initNC n) s
+
 def measure (s : St) : Nat :=
-  tot wt s.ws + bgWt s.mc + bgWt s.tc + ehWt s.eh + (if s.ehTok then 0 else 1)
+  2 * (tot wt s.ws + bgWt s.mc + bgWt s.tc + ehWt s.eh) + (if s.tok then 0 else 1)
 
 /-- a call is in progress -/
 def pending : Pc → Bool
-  | .idle | .ret _ => false
+  | .idle | .ret _ | .retE _ => false
   | _ => true
 
 end GoLevel.Locks
